@@ -542,8 +542,14 @@ func c09ULTransport(c c09Case, vd *ev.Verdict, fail failer) ev.Verdict {
 		if err != nil {
 			return fail("parse-payload", "%v (payload %s)", err, short(m.Payload))
 		}
-		if sm.PSI != a.PSI || sm.PTI != 0 || sm.Cause != nil || sm.EPCO != nil || len(m.Payload) != 4 {
-			return fail("payload-fields", "payload %s, intended 2e %02x 00 %s", short(m.Payload), a.PSI, map[bool]string{true: "d4", false: "d1"}[sm.Complete])
+		// PTI: an assigned value (1..254; 0 = "no procedure transaction identity assigned" and 255 = reserved are
+		// answered with 5GSM STATUS #81 in a UE-requested transaction, TS 24.501 7.3.1), and the release complete
+		// repeats the one of the release request (the release command echoes it)
+		if sm.PSI != a.PSI || sm.PTI < 1 || sm.PTI > 254 || sm.Cause != nil || sm.EPCO != nil || len(m.Payload) != 4 {
+			return fail("payload-fields", "payload %s, intended 2e %02x <PTI 1..254> %s", short(m.Payload), a.PSI, map[bool]string{true: "d4", false: "d1"}[sm.Complete])
+		}
+		if req := nasTestpacket.GetPduSessionReleaseRequest(uint8(a.PSI)); sm.Complete && (len(req) != 4 || int(req[2]) != int(sm.PTI)) {
+			return fail("payload-fields", "release complete carries PTI %d, the release request built for the same session %x", sm.PTI, req)
 		}
 	}
 	vd.NT = a.PSI != 0 && (!withReq || (a.ReqType != 1 && a.DNN != "internet" && a.SD != "010203"))
